@@ -95,6 +95,10 @@ pub fn build(
     if !is_integer {
         anyhow::bail!("the base type `{ty}` of enum `{resolvee_path}` is not a predefined integer type");
     }
+    // An enum without cases cannot have a representation at all.
+    if definition.statements.is_empty() {
+        anyhow::bail!("enum `{resolvee_path}` has no cases");
+    }
     let Some(size) = ty.size(&semantic.type_registry) else {
         return Ok(None);
     };
